@@ -29,12 +29,18 @@ func ToTagged(v any) any {
 		}
 		return map[string]any{"#": "bytes", "v": hex.EncodeToString([]byte(v))}
 	case []any:
+		if v == nil {
+			return map[string]any{"#": "nilarr"} // a nil slice is an empty array whose Go value is nil
+		}
 		out := make([]any, len(v))
 		for i, x := range v {
 			out[i] = ToTagged(x)
 		}
 		return out
 	case map[string]any:
+		if v == nil {
+			return map[string]any{"#": "nilobj"}
+		}
 		keys := make([]string, 0, len(v))
 		for k := range v {
 			keys = append(keys, k)
@@ -77,6 +83,10 @@ func FromTagged(t any) any {
 		case "bytes":
 			b, _ := hex.DecodeString(s)
 			return string(b)
+		case "nilarr":
+			return []any(nil)
+		case "nilobj":
+			return map[string]any(nil)
 		case "obj":
 			m := map[string]any{}
 			kv, _ := t["kv"].([]any)
